@@ -72,6 +72,18 @@ def _run(q, find_kw=None):
         st.status = "throw"                      # Phreeqc::malloc_error reports "NULL pointer returned from malloc or realloc" with STOP: it does not return
         return [(st, ZI)]
     c.handlers["malloc_error"] = malloc_error
+    def h_skipparen(ex_, st, n, name, recv, args):
+        """contract of skipparen (its own unit proves it for every returning path, the recursive call included): it returns with LINK->t at a
+        ')' or ',' token - never at the end of the line (that is the error 'parenthesis missing')"""
+        link = args[0]
+        t2 = fresh("tok_after_skipparen", "P")
+        st.events.append(SX.Event(name, recv, [link, cur_t(ex_, st, link)], t2, n))
+        ex_.store(st, ("field", "t", link), t2, "P")
+        st.assume(tm.not_(tm.eq(t2, NULLP)))
+        k = F(ex_, st, "kind", "I", t2)
+        st.assume(tm.or_(tm.eq(k, tk("tokrp")), tm.eq(k, tk("tokcomma"))))
+        return [(st, ZI)]
+    c.handlers["PBasic::skipparen"] = h_skipparen
     collect = {}
     c.loop = exact_exit_loop(collect)
     fn = A.find_function(PB, q, **(find_kw or {}))
@@ -174,6 +186,18 @@ def unit_null(fname, twin=False, expect_errors=()):
         r.add("no_line_token_or_stack_pointer_is_dereferenced_in_this_function", DISCHARGED if not twin else FAILED, "symex", 0,
               "0 dereference expressions of line / token / loop-stack pointers on %d paths" % npaths, kind="safety")
     r.add("reach.paths", DISCHARGED if npaths else UNDECIDED, "symex", 0, "%d paths, %d dereference expressions under obligation" % (npaths, n), kind="vacuity")
+    if fname == "skipparen":
+        k = 0
+        link = tm.sym("P0_LINK", "P")
+        for s in fin:
+            if s.status not in ("goto", "ret", "run") or B.z3_sat(list(s.pc)) == "unsat":
+                continue
+            k += 1
+            t = F(ex, s, "t", "P", link)
+            kd = F(ex, s, "kind", "I", t)
+            goal = tm.and_(tm.not_(tm.eq(t, NULLP)), tm.or_(tm.eq(kd, tk("tokrp")), tm.eq(kd, tk("tokcomma") if not twin else tk("toklp"))))
+            U.discharge_valid(r, "returns_only_at_a_closing_parenthesis_or_a_comma_never_at_the_end_of_the_line#%d" % k, list(s.pc), goal)
+        r.add("reach.returning_paths", DISCHARGED if k else UNDECIDED, "symex", 0, str(k), kind="vacuity")
     if fname == "mustfindline":
         k = 0
         for s in fin:
@@ -229,7 +253,8 @@ NULL_FUNCS = [("cmdfor", ("FOR without NEXT",)), ("cmdnext", ("NEXT without FOR"
               ("cmdgoto", ()), ("cmdgosub", ()), ("cmdreturn", ("RETURN without GOSUB",)), ("cmdon", ()), ("cmdif", ()), ("cmdelse", ()),
               ("cmdread", ("Out of Data",)), ("cmddata", ()), ("cmdrestore", ()), ("skiptoeos", ()), ("skiploop", ()), ("iseos", ()),
               ("checkextra", ("Extra information on line",)), ("findline", ()), ("mustfindline", ()), ("clearloops", ()), ("cmdend", ()), ("restoredata", ()),
-              ("parseinput", ()), ("cmdrun", ()), ("cmdnew", ()), ("cmdlist", ()), ("cmddel", ())]
+              ("parseinput", ()), ("cmdrun", ()), ("cmdnew", ()), ("cmdlist", ()), ("cmddel", ()),
+              ("skipparen", (": parenthesis missing",)), ("findvar", ()), ("cmddim", ()), ("cmderase", ()), ("cmdlet", ())]
 
 
 def units():
